@@ -88,8 +88,8 @@ PROPS = {
     },
     "C05": {
         "test": "TestC05", "variant": "elem",
-        "quick": {"shards": 16, "timeout": 1500},
-        "thorough": {"shards": 16, "timeout": 7200},
+        "quick": {"shards": 16, "timeout": 1500, "matrix": [{"cpus": c} for c in (16, 16, 3, 16, 5, 16, 7, 16, 1, 16, 6, 16, 2, 16, 12, 16)]},
+        "thorough": {"shards": 16, "timeout": 7200, "matrix": [{"cpus": c} for c in (16, 16, 3, 16, 5, 16, 7, 16, 1, 16, 6, 16, 2, 16, 12, 16)]},
         "rule": "(1) enumeration: for chosen (basis position i, window k) every digit v in 1..2^w-1 (w=16 for i<5, else 8) x "
                 "carry-in mode {none, 2^w-1 in window k-1, 2^w-1 in ALL windows below k} as the single-coefficient vector v*2^(wk) (+ the carry pattern) of length i+1, scalar < r; both tiers "
                 "enumerate all 5*16 + 251*32 (position, window) units (exhaustive sub-domain, ~14.6 M checks). Non-trivial (counted, "
@@ -218,9 +218,11 @@ PROPS = {
     },
     "C18": {
         "test": "TestC18", "variant": "ipa",
-        "quick": {"shards": 16, "timeout": 1800},
-        "thorough": {"shards": 16, "timeout": 10800},
-        "rule": "all 512 + 510 precomputed table entries (hook); DivideOnDomain at ALL 256 indices for, per shard, one dense "
+        "quick": {"shards": 16, "timeout": 1800,
+                  "matrix": [{"cpus": c} for c in (16, 3, 5, 7, 16, 6, 1, 2, 16, 12, 9, 11, 16, 13, 10, 3)]},
+        "thorough": {"shards": 16, "timeout": 10800, "matrix": [{"cpus": c} for c in (16, 15, 14, 13, 12, 11, 10, 9, 7, 6, 5, 3, 2, 1, 16, 16)]},
+        "rule": "processes pinned to 1..16 CPUs (the configuration and its weight tables are BUILT inside each process under that "
+                "CPU count / GOMAXPROCS); all 512 + 510 precomputed table entries (hook); DivideOnDomain at ALL 256 indices for, per shard, one dense "
                 "polynomial, one unit vector and (split over shards) X^255 in evaluation form (thorough: +6 more per shard, the "
                 "all-(r-1) polynomial, a sparse one); ComputeBarycentricCoefficients at z in {256, 257, 2^64, r-1, uniform} for each; "
                 "plus rapid cases polynomial kind x (index | point class incl. limb-aligned and small-Montgomery points). "
@@ -303,8 +305,8 @@ PROPS = {
     },
     "C13": {
         "test": "TestC13", "variant": "ipa",
-        "quick": {"shards": 16, "timeout": 2400},
-        "thorough": {"shards": 16, "timeout": 14400},
+        "quick": {"shards": 16, "timeout": 2400, "matrix": [{"cpus": c} for c in (16, 16, 3, 16, 5, 16, 1, 16, 7, 16, 2, 16)]},
+        "thorough": {"shards": 16, "timeout": 14400, "matrix": [{"cpus": c} for c in (16, 16, 3, 16, 5, 16, 1, 16, 7, 16, 2, 16)]},
         "rule": "histories of 5..40 API calls drawn from 23 kinds (Commit of short/long vectors, CreateMultiProof incl. openings "
                 "that share an evaluation index and reused commitment pointers, CheckMultiProof honest and perturbed incl. one "
                 "scalar object used for two claimed values, CreateIPAProof / CheckIPAProof, MultiScalar over a sub-slice of the "
